@@ -353,6 +353,7 @@ pub fn c07_instances(tier: Tier) -> Vec<Instance> {
                     j.pending_budget = 1;
                     j.tick_budget = if imp == Impl::Tokio { 1 } else { 0 };
                     j.storm_budget = 1;
+                    j.slow_flush = 2;
                     out.push(j);
                 }
             }
@@ -468,6 +469,22 @@ pub fn c09_instances(_tier: Tier) -> Vec<Instance> {
                     i.chunks = Chunks::WholeOrBytes;
                     i.allow_eof = false;
                     out.push(i);
+                }
+            }
+            // a VER frame longer than the 20 bytes its fields need (what a later protocol revision would send):
+            // the gate looks at the version, not at the frame length
+            for verify in [true, false] {
+                for v in 0..=255u8 {
+                    for extra in [4usize, 8] {
+                        let mut f = f_ver(c, v);
+                        f[0] = sz(c, 20 + extra);
+                        f.extend(std::iter::repeat(0).take(extra));
+                        let mut i = Instance::new(&format!("padded-ver#{cname}#v{v}+{extra}-verify-{verify}#{}", imp_name(imp)), imp, c, vec![f, f_small(c)]);
+                        i.verify_version = verify;
+                        i.chunks = Chunks::WholeOrBytes;
+                        i.allow_eof = false;
+                        out.push(i);
+                    }
                 }
             }
             // 300 version packets on one connection, alternately acceptable and not
@@ -615,6 +632,7 @@ fn drop_write_instances(c: bool, family: &str) -> Vec<Instance> {
             i.cancel_writes = true;
             i.isi_via_handshake = *via_handshake;
             i.pending_budget = 1;
+            i.slow_flush = 1;
             let mut v = i.clone();
             v.label = format!("{}#vectored", i.label);
             v.vectored = true;
@@ -642,6 +660,8 @@ pub fn c19_instances(tier: Tier) -> Vec<Instance> {
             i.cancel_budget = if tier == Tier::Thorough { 4 } else { 2 };
             i.pending_budget = 1;
             i.tick_budget = if seq.len() <= 2 || tier == Tier::Thorough { 2 } else { 0 };
+            // a transport whose flush takes two more polls: free on a connection that never flushes
+            i.slow_flush = 2;
             out.push(i);
         }
         // the same drops late in a long session: the spare capacity of the receive buffer shrinks to
